@@ -687,6 +687,19 @@ def r_escape_inverse(ctx, repo):
                     if 0 <= v + d < 0x110000 and not 0xD800 <= v + d <= 0xDFFF:
                         probes.add(chr(v + d))
     probes.update('\x00\x07\x1f\x20\x7e\x7f\x80\x84\x85\x86\x9f\xa0\xa1\ufeff\ufffd\ufffe\uffff\U00010000\U0010ffff \xe9\u4e00')
+    # characters at which the scanner sees a line break inside a quoted scalar (it folds them)
+    slb = repo.cls('scanner.Scanner').methods.get('scan_line_break')
+    if slb is None:
+        raise AnalysisError('Scanner.scan_line_break has vanished')
+    breaks = set()
+    for n in walk_function(slb.node):
+        if isinstance(n, ast.Compare) and len(n.ops) == 1 and isinstance(n.ops[0], (ast.In, ast.Eq)):
+            lit = A.const_str(n.comparators[0])
+            if lit:
+                breaks |= set(lit)
+    if not breaks >= set('\r\n'):
+        raise AnalysisError('scan_line_break: the set of line-break characters was not found')
+    probes |= breaks
     n_raw = 0
     for c in sorted(probes):
         for au in (True, False):
@@ -694,6 +707,12 @@ def r_escape_inverse(ctx, repo):
             if any(x in r for x in escape_sites):
                 continue
             n_raw += 1
+            if c in breaks:
+                rule.fail('raw-break|%r|%s' % (c, au), f.module.rel, shown.lineno, f.qualname,
+                          norm(shown.test)[:80] if shown is not f.node else f.name,
+                          'with allow_unicode=%s the line-break character %r is written unescaped inside double quotes: the '
+                          'scanner folds it (it becomes a space, or is dropped next to one), so the scalar does not read back '
+                          'character for character' % (au, c))
             if rx.search(c):
                 rule.fail('raw-nonprintable|%r|%s' % (c, au), f.module.rel, shown.lineno, f.qualname,
                           norm(shown.test)[:80] if shown is not f.node else f.name,
